@@ -150,7 +150,13 @@ func Main(m *testing.M) {
 	flag.Parse()
 	// gotree warns on stderr and through the log package; the checks only look at
 	// return values. Keep the original stderr for the Go runtime (panics still show).
-	if os.Getenv("VERIF_KEEP_STDERR") == "" {
+	coordinator := false
+	if f := flag.Lookup("test.fuzz"); f != nil && f.Value.String() != "" {
+		if w := flag.Lookup("test.fuzzworker"); w == nil || w.Value.String() != "true" {
+			coordinator = true // the fuzz coordinator reports progress on stderr and runs no gotree code
+		}
+	}
+	if os.Getenv("VERIF_KEEP_STDERR") == "" && !coordinator {
 		log.SetOutput(io.Discard)
 		if devnull, err := os.OpenFile(os.DevNull, os.O_WRONLY, 0); err == nil {
 			os.Stderr = devnull
@@ -597,4 +603,85 @@ func (r *Recorder) Guard(c any, d time.Duration, f func() error) error {
 	}
 	journalClear()
 	return err
+}
+
+// ---------------------------------------------------------------------------------------
+// Native fuzzing support
+
+// Guarded is the exported watchdog + panic-to-error wrapper (used by fuzz targets).
+func Guarded(f func() error, d time.Duration) (err error, returned bool) { return guarded(f, d) }
+
+// FuzzCheck is the body of a native fuzz target: the case built from the fuzzer's input is
+// checked under the watchdog; a hang ends the worker process (exit 3) so that the
+// coordinator records the input as a crasher.
+func FuzzCheck(t *testing.T, d time.Duration, check func() error) {
+	err, ok := guarded(check, d)
+	if !ok {
+		fmt.Fprintf(Stdout, "fuzz input did not return within %v\n", d)
+		os.Exit(3)
+	}
+	if err != nil {
+		t.Fatalf("%v", err)
+	}
+}
+
+// CorpusToReplay converts a crasher saved by the Go fuzzer (file named by
+// VERIF_CORPUS_FILE, target by VERIF_CORPUS_TARGET) into a plain replay file of the
+// given check. mk receives the decoded arguments (as strings holding the raw bytes).
+func CorpusToReplay(t *testing.T, property string, targets map[string]struct {
+	Check string
+	Make  func(args []string) any
+}) {
+	file, target := os.Getenv("VERIF_CORPUS_FILE"), os.Getenv("VERIF_CORPUS_TARGET")
+	if file == "" {
+		t.Skip("no corpus file to convert")
+	}
+	tg, ok := targets[target]
+	if !ok {
+		t.Fatalf("unknown fuzz target %q", target)
+	}
+	args, err := CorpusArgs(file)
+	if err != nil {
+		t.Fatalf("%v", err)
+	}
+	raw, _ := json.Marshal(tg.Make(args))
+	p := writeReplay(fail{Property: property, Test: t.Name(), Check: tg.Check, Case: raw, Failure: "crasher saved by the native fuzzer (" + target + ")", Seed: seed, Tier: tier})
+	fmt.Fprintf(Stdout, "VERIF-CORPUS-REPLAY %s\n", p)
+}
+
+// CorpusArgs decodes a Go fuzz corpus file into its arguments (strings hold raw bytes).
+func CorpusArgs(file string) ([]string, error) {
+	b, err := os.ReadFile(file)
+	if err != nil {
+		return nil, err
+	}
+	lines := strings.Split(strings.TrimSpace(string(b)), "\n")
+	if len(lines) < 2 || !strings.HasPrefix(lines[0], "go test fuzz v1") {
+		return nil, fmt.Errorf("not a Go fuzz corpus file: %s", file)
+	}
+	var args []string
+	for _, l := range lines[1:] {
+		i, j := strings.IndexByte(l, '('), strings.LastIndexByte(l, ')')
+		if i < 0 || j < i {
+			return nil, fmt.Errorf("cannot decode corpus line %q", l)
+		}
+		lit := l[i+1 : j]
+		if s, err := strconv.Unquote(lit); err == nil {
+			args = append(args, s)
+		} else {
+			args = append(args, lit) // numbers, booleans
+		}
+	}
+	return args, nil
+}
+
+// SaveFuzzFailure writes the failing case of a rapid.MakeFuzz target as a replay file, but
+// only in conversion mode (VERIF_CORPUS_FILE set), so that fuzz workers do not litter.
+func SaveFuzzFailure(property, check string, c any, err error) {
+	if os.Getenv("VERIF_CORPUS_FILE") == "" {
+		return
+	}
+	raw, _ := json.Marshal(c)
+	p := writeReplay(fail{Property: property, Test: "fuzz", Check: check, Case: raw, Failure: err.Error(), Seed: seed, Tier: tier})
+	fmt.Fprintf(Stdout, "VERIF-CORPUS-REPLAY %s\n", p)
 }
